@@ -552,5 +552,146 @@ theorem opScannerScanString_eq (text : List Char) (fuel k : Nat) (h : L text < f
   | none => simp [res_pure]
   | some e => cases e <;> simp [res_pure, res_bind, res_cur, resK_mk, curAt_prev]
 
+/-! ## identifiers -/
+
+theorem bare_ge (text : List Char) (fuel : Nat) : ∀ k, k ≤ ((opScanBareIdent fuel).res text k).2 := by
+  induction fuel with
+  | zero => intro k; exact Nat.le_refl _
+  | succ fuel ih =>
+    intro k
+    simp only [opScanBareIdent, res_bind, res_readRune, resK_mk, res_ite, res_unreadRune, res_pure]
+    repeat' split
+    · simp
+    · simp
+    · have := ih (k + 1)
+      simp only [resK, res_pure]
+      omega
+
+theorem bare_gt (text : List Char) (fuel k : Nat) (hf : 0 < fuel)
+    (hc : isIdentChar (streamAt text k).1 = true) :
+    k + 1 ≤ ((opScanBareIdent fuel).res text k).2 := by
+  cases fuel with
+  | zero => omega
+  | succ fuel =>
+    have hne : (streamAt text k).1 ≠ eofRune := isIdentChar_ne_eof hc
+    simp only [opScanBareIdent, res_bind, res_readRune, resK_mk, res_ite, res_unreadRune, res_pure]
+    simp only [beq_iff_eq, hne, ↓reduceIte, hc, Bool.not_true, Bool.false_eq_true, resK, res_pure]
+    exact bare_ge text fuel (k + 1)
+
+theorem identLoop_eq (text : List Char) (fuel0 : Nat) (h0 : L text < fuel0) (pos : Pos) (fuel : Nat) :
+    ∀ fuelM buf k, Fuel text fuel k → Fuel text fuelM k →
+    scanIdentLoop pos fuelM (curAt text k) buf =
+      (((identLoop fuel0 pos fuel buf).res text k).1,
+        curAt text ((identLoop fuel0 pos fuel buf).res text k).2) := by
+  induction fuel with
+  | zero => intro fuelM buf k h; simp [Fuel] at h
+  | succ fuel ih =>
+    intro fuelM buf k h hM
+    cases fuelM with
+    | zero => simp [Fuel] at hM
+    | succ fuelM =>
+      simp only [scanIdentLoop, curAt_peek, curAt_read, identLoop, res_bind, res_rd, resK_mk, res_ite,
+        res_unrd, res_pure, Nat.add_sub_cancel]
+      by_cases h1 : (streamAt text k).1 = eofRune
+      · simp [h1]
+      · by_cases h2 : (streamAt text k).1 = '"'
+        · have hs := opScannerScanString_eq text fuel0 k h0
+          simp only [h1, h2, ↓reduceIte, hs]
+          generalize (opScannerScanString fuel0).res text (k + 1) = r
+          obtain ⟨lx, k1⟩ := r
+          have qne : ¬ ('"' : Char) = eofRune := by decide
+          simp only [resK_mk, res_ite, res_pure, qne, ↓reduceIte]
+          by_cases hb : lx.tok = .BADSTRING ∨ lx.tok = .BADESCAPE <;> simp [hb]
+        · by_cases h3 : isIdentChar (streamAt text k).1 = true
+          · have hb := opScanBareIdent_eq text fuel0 k (fuel_of_abs text fuel0 k h0)
+            have hg := bare_gt text fuel0 k (by omega) h3
+            have hlt : ¬ L text ≤ k := fun hh => h1 (streamAt_eof text k hh)
+            simp only [h1, h2, h3, ↓reduceIte, hb]
+            generalize hr : (opScanBareIdent fuel0).res text k = r at hg
+            obtain ⟨cs, k1⟩ := r
+            simp only [resK_mk]
+            apply ih
+            · simp only [Fuel] at h ⊢; simp only at hg; omega
+            · simp only [Fuel] at hM ⊢; simp only at hg; omega
+          · simp [h1, h2, h3]
+
+theorem opScanIdent_eq (text : List Char) (fuel : Nat) (lk : Bool) (k : Nat) (h : L text < fuel) :
+    scanIdent lk (curAt text k) =
+      (((opScanIdent fuel lk).res text k).1, curAt text ((opScanIdent fuel lk).res text k).2) := by
+  have hl := identLoop_eq text fuel h (streamAt text k).2 fuel ((curAt text k).rest.length + 2) [] k
+    (fuel_of_abs text fuel k h) (by rw [curAt_rest_length]; simp only [Fuel]; omega)
+  simp only [scanIdent, curAt_read, hl, opScanIdent, res_bind, res_rd, res_unrd, resK_mk,
+    Nat.add_sub_cancel]
+  generalize (identLoop fuel (streamAt text k).2 fuel []).res text k = r
+  obtain ⟨⟨lx, lit⟩, k1⟩ := r
+  simp only [resK_mk]
+  cases lx with
+  | some lx => simp [res_pure]
+  | none =>
+    simp only [res_ite, res_pure]
+    split <;> rfl
+
+/-! ## `Scan` -/
+
+theorem opScanFrom_eq (text : List Char) (fuel k : Nat) (h : L text < fuel) :
+    scanFrom (streamAt text k).1 (streamAt text k).2 (curAt text k) (curAt text (k + 1)) =
+      (((opScanFrom fuel (streamAt text k).1 (streamAt text k).2).res text (k + 1)).1,
+        curAt text ((opScanFrom fuel (streamAt text k).1 (streamAt text k).2).res text (k + 1)).2) := by
+  by_cases c1 : isWhitespace (streamAt text k).1 = true
+  · have := opScanWhitespace_eq text fuel (k + 1) h
+    rw [currAt_succ] at this
+    simp only [scanFrom, opScanFrom, c1, ↓reduceIte, Bool.false_eq_true, this]
+  by_cases c2 : (isLetter (streamAt text k).1 || (streamAt text k).1 == '_') = true
+  · have := opScanIdent_eq text fuel true k h
+    simp only [scanFrom, opScanFrom, c1, c2, ↓reduceIte, Bool.false_eq_true, this, res_bind, res_unrd, resK_mk,
+      Nat.add_sub_cancel]
+  by_cases c3 : isDigit (streamAt text k).1 = true
+  · have := opScanNumber_eq_digit text fuel k h c3
+    simp only [scanFrom, opScanFrom, c1, c2, c3, ↓reduceIte, Bool.false_eq_true, this]
+  by_cases c4 : (streamAt text k).1 = eofRune
+  · simp only [scanFrom, opScanFrom, c1, c2, c3, ↓reduceIte, Bool.false_eq_true]
+    rw [if_pos c4, if_pos c4]
+    rfl
+  by_cases c5 : (streamAt text k).1 = '"'
+  · have := opScanIdent_eq text fuel true k h
+    simp only [scanFrom, opScanFrom, c1, c2, c3, c4, ↓reduceIte, Bool.false_eq_true]
+    rw [if_pos c5, if_pos c5]
+    simp only [this, res_bind, res_unrd, resK_mk, Nat.add_sub_cancel]
+  by_cases c6 : (streamAt text k).1 = '\''
+  · have := opScannerScanString_eq text fuel k h
+    simp only [scanFrom, opScanFrom, c1, c2, c3, c4, c5, ↓reduceIte, Bool.false_eq_true]
+    rw [if_pos c6, if_pos c6]
+    exact this
+  by_cases c7 : (streamAt text k).1 = '.'
+  · by_cases cd : isDigit (streamAt text (k + 1)).1 = true
+    · have := opScanNumber_eq_dot text fuel k h c7 cd
+      simp only [scanFrom, opScanFrom, c1, c2, c3, c4, c5, c6, ↓reduceIte, Bool.false_eq_true]
+      rw [if_pos c7, if_pos c7]
+      simp only [this, curAt_peek, cd, res_bind, res_rd, res_unrd, resK_mk, res_ite, Nat.add_sub_cancel,
+        ↓reduceIte]
+    · simp only [scanFrom, opScanFrom, c1, c2, c3, c4, c5, c6, ↓reduceIte, Bool.false_eq_true]
+      rw [if_pos c7, if_pos c7]
+      simp only [curAt_peek, cd, res_bind, res_rd, res_unrd, resK_mk, res_ite, res_pure, Nat.add_sub_cancel,
+        ↓reduceIte, Bool.false_eq_true]
+  by_cases c8 : (streamAt text k).1 = '$'
+  · have := opScanIdent_eq text fuel false (k + 1) h
+    simp only [scanFrom, opScanFrom, c1, c2, c3, c4, c5, c6, c7, ↓reduceIte, Bool.false_eq_true]
+    rw [if_pos c8, if_pos c8]
+    simp only [this, res_bind]
+    generalize (opScanIdent fuel false).res text (k + 1) = r
+    obtain ⟨lx, k1⟩ := r
+    simp only [resK_mk, res_ite, res_pure]
+    by_cases ht : lx.tok = .IDENT <;> simp [ht]
+  · have := opScan2_eq text fuel (streamAt text k).1 (streamAt text k).2 (k + 1) h
+    simp only [scanFrom, opScanFrom, c1, c2, c3, c4, c5, c6, c7, c8, ↓reduceIte, Bool.false_eq_true]
+    exact this
+
+/-- **`Scan` of the transcription = `scan` of the pure model**, at every position of every text. -/
+theorem opScan_eq (text : List Char) (fuel k : Nat) (h : L text < fuel) :
+    scan (curAt text k) =
+      (((opScan fuel).res text k).1, curAt text ((opScan fuel).res text k).2) := by
+  simp only [scan, curAt_read, opScan, res_bind, res_rd, resK_mk]
+  exact opScanFrom_eq text fuel k h
+
 end InfluxQL.ScanOps
 
